@@ -34,9 +34,11 @@ def code_tables(ctx):
     lib_codes.check_typeinfo(ctx)
     R.floor("TAB-TI.row", 60)
     lib_codes.check_ctrl_id(ctx)
-    from rules import lib_wirep
+    from rules import lib_wirep, lib_wirepa
     lib_wirep.check_payload_dispatch(ctx)
     R.floor("WIRE-PD", 6)
+    lib_wirepa.check(ctx, "WIRE-PA")
+    R.floor("WIRE-PA", 20)
 
 
 def wire_and_consumption(ctx, cons=True):
